@@ -917,7 +917,7 @@ fn run_fairness(prop: &'static str) {
 /// its task (C13), and no pushed child may stay un-polled behind a Pending that nobody will follow up (C01).
 fn run_budget(prop: &'static str) {
     for kind in 0..4usize {
-        for &n in &[60usize, 61, 62, 63, 100, 122, 123, 124, 200] {
+        for &n in &[3usize, 40, 60, 61, 62, 63, 100, 122, 123, 124, 200] {
             let mut coll = match kind {
                 0 => Coll::Fub(FuturesUnorderedBounded::new(n)),
                 1 => Coll::Fu(FuturesUnordered::new()),
@@ -954,7 +954,20 @@ fn run_budget(prop: &'static str) {
             for _ in 0..3 {
                 let _ = coll.poll(&mut cx);
             }
+            // ... also when the collection moves to another task (a different task waker is a registration, not a wake)
+            let tw2 = Arc::new(CountWaker(AtomicUsize::new(0)));
+            let waker2 = Waker::from(tw2.clone());
+            let mut cx2 = Context::from_waker(&waker2);
+            let before_move: usize = children.iter().map(|c| c.polls.get()).sum();
+            for _ in 0..2 {
+                let _ = coll.poll(&mut cx2);
+                let _ = coll.poll(&mut cx);
+            }
             let total: usize = children.iter().map(|c| c.polls.get()).sum();
+            if prop == "C12" && total > before_move && before_move <= n {
+                hist.push("poll x3; poll with the waker of another task, poll with the first waker, twice".into());
+                report(&Fail { prop, scenario: scenario.clone(), history: hist.clone(), what: format!("{} child polls after the collection was polled from another task: {n} pushes, no wake at all", total - before_move) });
+            }
             if prop == "C12" && total > n {
                 let worst = children.iter().enumerate().max_by_key(|(_, c)| c.polls.get()).map(|(i, c)| (i, c.polls.get())).unwrap();
                 hist.push("poll x3".into());
@@ -1692,6 +1705,8 @@ struct SrcSt {
     end_now: Cell<bool>,
     /// pushed, or woken through its own waker, and not polled since
     fresh: Cell<bool>,
+    /// the source's size_hint keeps announcing an item (a stale lower bound), also after it has ended
+    stale_hint: Cell<bool>,
 }
 impl Unpin for Src {}
 impl Drop for Src {
@@ -1734,6 +1749,7 @@ impl Stream for Src {
     }
     fn size_hint(&self) -> (usize, Option<usize>) {
         let left = if self.st.ended.get() { 0 } else { self.st.script.borrow().iter().take_while(|u| **u != Up::End).filter(|u| **u == Up::Item || **u == Up::ErrItem).count() };
+        if self.st.stale_hint.get() { return (1, None); }
         match self.st.hint_mode.get() {
             1 if !self.st.always_ready.get() => (left, Some(left)),
             2 if !self.st.always_ready.get() => (left, None),
@@ -1747,11 +1763,54 @@ fn mk_src(id: usize, rng: &mut Rng) -> (Src, Rc<SrcSt>) {
         script.push_back(if rng.below(3) == 0 { Up::Pending } else { Up::Item });
     }
     script.push_back(Up::End);
-    let st = Rc::new(SrcSt { id, script: RefCell::new(script), seq: Cell::new(0), ended: Cell::new(false), polled_after_end: Cell::new(false), polls: Cell::new(0), waker: RefCell::new(None), dropped: Cell::new(0), always_ready: Cell::new(false), fresh: Cell::new(true), addr: Cell::new(0), moved: Cell::new(false), hint_mode: Cell::new(id % 3), end_now: Cell::new(false) });
+    let st = Rc::new(SrcSt { id, script: RefCell::new(script), seq: Cell::new(0), ended: Cell::new(false), polled_after_end: Cell::new(false), polls: Cell::new(0), waker: RefCell::new(None), dropped: Cell::new(0), always_ready: Cell::new(false), fresh: Cell::new(true), addr: Cell::new(0), moved: Cell::new(false), hint_mode: Cell::new(id % 3), end_now: Cell::new(false), stale_hint: Cell::new(false) });
     (Src { st: st.clone() }, st)
 }
 fn run_merge(prop: &'static str, seed: u64, iters: usize) {
     let mut rng = Rng(seed.wrapping_mul(0x9FB21C651E98DF25) | 1);
+    // fixed C05 scenario: an ended source is released whatever its size_hint keeps saying
+    if prop == "C05" {
+        for unb in [false, true] {
+            for stale_at in 0..3usize {
+                let mut sts = vec![];
+                let mut srcs = vec![];
+                for i in 0..3usize {
+                    let (s, st) = mk_src(i, &mut rng);
+                    st.script.borrow_mut().clear();
+                    for _ in 0..(i + 1) { st.script.borrow_mut().push_back(Up::Item); }
+                    st.script.borrow_mut().push_back(Up::End);
+                    st.stale_hint.set(i == stale_at);
+                    sts.push(st);
+                    srcs.push(s);
+                }
+                enum M4 { B(MergeBounded<Src>), U(MergeUnbounded<Src>) }
+                let mut m = if unb { let mut mu = MergeUnbounded::new(); for s in srcs { mu.push(s); } M4::U(mu) } else { M4::B(srcs.into_iter().collect()) };
+                let tw = Arc::new(CountWaker(AtomicUsize::new(0)));
+                let waker = Waker::from(tw.clone());
+                let mut cx = Context::from_waker(&waker);
+                let scenario = format!("{}: 3 sources, source {stale_at} keeps reporting size_hint (1, None) after it ended; wakers of ended sources are invoked later", if unb { "MergeUnbounded" } else { "MergeBounded" });
+                let mut hist = vec![];
+                let mut done = false;
+                for _ in 0..24 {
+                    let r = match &mut m { M4::B(m) => Pin::new(m).poll_next(&mut cx), M4::U(m) => Pin::new(m).poll_next(&mut cx) };
+                    hist.push(format!("poll -> {}", match &r { Poll::Ready(Some(x)) => format!("item {x:?}"), Poll::Ready(None) => "None".into(), Poll::Pending => "Pending".into() }));
+                    for st in &sts {
+                        if st.polled_after_end.get() {
+                            report(&Fail { prop, scenario: scenario.clone(), history: hist.clone(), what: format!("source {} was polled again after it returned None", st.id) });
+                        }
+                        if st.ended.get() && st.dropped.get() == 0 {
+                            report(&Fail { prop, scenario: scenario.clone(), history: hist.clone(), what: format!("source {} returned None but is still held when the call that saw it end has returned", st.id) });
+                        }
+                        if st.ended.get() {
+                            if let Some(w) = st.waker.borrow().as_ref() { w.wake_by_ref(); }
+                        }
+                    }
+                    if matches!(r, Poll::Ready(None)) { done = true; break; }
+                }
+                let _ = done;
+            }
+        }
+    }
     // fixed fairness scenario (C13): an always-ready source in group 0 must not starve group 1
     {
         let mut m = MergeUnbounded::new();
